@@ -22,6 +22,7 @@ EXPLANATION = (
     "permission words and `none`, and inherits from the parent; the proc_internals branch of prune "
     "applies to every class whose obj is 'proc' and empties every rendered child list. Absence of text "
     "leaks through every rendering path is not decided."
+    ' R5: graph links are visibility-gated and a structure constructor follows its type. The prune() methods are executed symbolically (assignments, setattr with constant names, loops over constant name tuples, inlined helper methods; undecidable guards fork the path).'
 )
 ASSUMPTIONS = ["element classes of child lists are those in LIST_ELEM (cross-checked against the constructor calls in the dispatch loop)"]
 
